@@ -22,7 +22,7 @@ from common import *  # noqa
 setup_repo_imports()
 
 from kernel.type import TVar, STVar, TConst, TFun, BoolType, TyInst
-from kernel.term import Term, SVar, Var, Const, Comb, Abs, Bound, Lambda
+from kernel.term import Term, SVar, Var, Const, Comb, Abs, Bound, Lambda, Eq
 from kernel.thm import Thm
 from kernel.proof import ProofItem
 from kernel import theory
@@ -469,6 +469,28 @@ def run_check(tier, seed):
         for uni in (False, True):
             roundtrip(run, t, dict(unicode=uni, highlight=False, line_length=None), 'same-name nested binders', ':nested-binders')
         run.count(('nested-binders', g_tm(t)), nontrivial=True)
+
+    # ---- binder constants applied to MORE than their one argument (SOME / THE at a function type, the chosen function then
+    #      applied): printed as an application of the binder term, every argument kept
+    FA_ = TFun(A, A)
+    FFA_ = TFun(FA_, FA_)
+    av, bv, fv, Pv = Var('a', A), Var('b', A), Var('f', FA_), Var('P', TFun(A, B))
+    for bname in ('Some', 'The'):
+        u1 = Var('u', FA_)
+        k1 = Const(bname, TFun(TFun(FA_, B), FA_))(Lambda(u1, Pv(u1(av))))
+        u2 = Var('u', FFA_)
+        k2 = Const(bname, TFun(TFun(FFA_, B), FFA_))(Lambda(u2, Eq(u2(fv)(av), av)))
+        zv = Var('z', A)
+        for t in (Pv(k1(bv)), Eq(k1(fv(av)), av), Eq(k2(Lambda(zv, zv))(av), bv), Eq(k2(fv)(bv), av), Pv(k2(Lambda(zv, fv(zv)))(k1(bv)))):
+            try:
+                t.checked_get_type()
+                theory.thy.check_term(t)
+            except Exception as e:
+                run.stat('gen-overapplied:' + type(e).__name__)
+                continue
+            for uni in (False, True):
+                roundtrip(run, t, dict(unicode=uni, highlight=False, line_length=None), 'binder constant applied to two arguments', ':overapplied-binder')
+            run.count(('overapplied-binder', g_tm(t)), nontrivial=True)
 
     # ---- binders whose variable has a compound type (list, set, function) and is constrained by infix operators only: no
     #      constant or free variable in the body can carry a type annotation, so the binder itself has to show the type
